@@ -26,7 +26,8 @@ RspNames == {Rsp[o] : o \in Edges} \ {""}
 Running == DOMAIN inflight
 Ready == {o \in (Edges \ done) \ Running : Deps[o] \subseteq done}
 
-Init == done = {} /\ inflight = << >> /\ scratch = [r \in RspNames |-> "none"]
+NoneRunning == [o \in {} |-> "unread"]
+Init == done = {} /\ inflight = NoneRunning /\ scratch = [r \in RspNames |-> "none"]
 
 \* ninja writes the response file, then spawns the process
 Start(o) == /\ o \in Ready /\ Cardinality(Running) < Jobs
